@@ -250,6 +250,7 @@ class SymlinkToBytes(Base):
         data = list(V.items_of(out.result))
         roots = [i for i, (t, ln) in enumerate(self.components(data)) if t in (1, 2)]
         return {'decodes-to-the-target': UR.symlink_target(data) == udf_target_form(a.t),
+                'the-library-decoder-inverts-it': c.call('pycdlib.udf.bytes_to_symlink', out.result) == udf_target_form(a.t),
                 'root-component-only-in-front': all(i == 0 for i in roots),
                 'components-fit-their-length-byte': all(ln <= 255 for t, ln in self.components(data))}
 
